@@ -374,6 +374,10 @@ func CheckPolicy(a *refsem.Arch, p *seccomp.Policy, o Options) *Outcome {
 		want := refsem.Decide(a, p, ev)
 		if rerr != nil {
 			e := ev
+			if ev.Arch != a.ID || (a.IsX86_64 && ev.Nr >= refsem.X32Bit) {
+				// a foreign / x32 event on which the program cannot be executed does not receive its prescribed action either
+				add(Issue{Class: ClsForeign, What: "execution error on a foreign-architecture / x32 event: " + rerr.Error(), Event: &e, Want: want})
+			}
 			add(Issue{Class: ClsVerifier, What: "execution error: " + rerr.Error(), Event: &e, Want: want})
 			return len(out.Issues) < o.MaxIssues
 		}
